@@ -25,18 +25,38 @@ Proof.
   intros H. unfold memZ. induction l as [| x l IH]; simpl; [reflexivity |]. rewrite (match_line_single p n H), IH. reflexivity.
 Qed.
 
-Lemma filter_single p n ex inc : single_line p n -> filter_by_path_includes_or_excludes ex inc p = permittedb ex inc n.
+(** the repaired rule decides exactly [permittedb] on single-line nodes *)
+Lemma filter_single p n ex inc : single_line p n ->
+  filter_by_path_includes_or_excludes ExcludeThenInclude ex inc p = permittedb ex inc n.
 Proof.
   intros H. unfold filter_by_path_includes_or_excludes, permittedb.
+  destruct ex as [| e ex]; destruct inc as [| i inc]; rewrite ?(existsb_match_line_single p n _ H); try reflexivity.
+  - destruct (memZ n (e :: ex)); reflexivity.
+  - destruct (memZ n (e :: ex)); reflexivity.
+Qed.
+
+(** the rule as written decides [shadow_permittedb], which is [permittedb] as long as one of the lists is empty *)
+Lemma filter_single_shadow p n ex inc : single_line p n ->
+  filter_by_path_includes_or_excludes ExcludeShadowsInclude ex inc p = shadow_permittedb ex inc n.
+Proof.
+  intros H. unfold filter_by_path_includes_or_excludes, shadow_permittedb.
   destruct ex as [| e ex]; [destruct inc as [| i inc]; [reflexivity |] |]; rewrite (existsb_match_line_single p n _ H); reflexivity.
+Qed.
+Lemma shadow_permittedb_alone ex inc n : ex = [] \/ inc = [] -> shadow_permittedb ex inc n = permittedb ex inc n.
+Proof.
+  intros [-> | ->]; unfold shadow_permittedb, permittedb; simpl.
+  - reflexivity.
+  - destruct ex; simpl; [reflexivity | now rewrite Bool.andb_true_r].
 Qed.
 
 Lemma permittedb_Permitted ex inc n : permittedb ex inc n = true <-> Permitted ex inc n.
 Proof.
-  unfold permittedb, Permitted. destruct ex as [| e ex]; [destruct inc as [| i inc] |].
-  - tauto.
-  - apply memZ_In.
-  - rewrite Bool.negb_true_iff. rewrite <- memZ_In. destruct (memZ n (e :: ex)); split; congruence.
+  unfold permittedb, Permitted. rewrite Bool.andb_true_iff, Bool.negb_true_iff.
+  assert (H1 : memZ n ex = false <-> ~ In n ex).
+  { rewrite <- memZ_In. destruct (memZ n ex); split; congruence. }
+  rewrite H1. destruct inc as [| i inc].
+  - split; [intros [H _]; split; [exact H | left; reflexivity] | intros [H _]; split; [exact H | reflexivity]].
+  - rewrite memZ_In. split; [intros [H H2]; split; [exact H | right; exact H2] | intros [H [H2 | H2]]; [discriminate | split; assumption]].
 Qed.
 
 Lemma In_append_new n : forall extra lines, In n (append_new lines extra) <-> In n lines \/ In n extra.
